@@ -53,4 +53,9 @@ example : msgPayload
      { fin := 1, rsv1 := 0, rsv2 := 0, rsv3 := 0, opcode := 0, mask := 0, data := [0x63] }] = [0x61, 0x62, 0x63] := by
   decide
 
+/-- generated fact: iteration is receiving — `__iter__` is exactly `while True: yield self.recv()`, `__next__` is
+    `return self.recv()`, `next` is `return self.__next__()`; the model's one receive operation stands for all of them (the
+    correspondence runs every other session through these spellings). -/
+theorem iteration_is_recv : Gen.iterationIsRecv = true := by decide
+
 end WS.Props.C04
